@@ -288,7 +288,7 @@ func (t *tapeUnderCut) judgeCut(rig *Rig, L int64, res *Result, kind string) boo
 		}
 		return viol("lost-entry", "entry %q (written by a complete record at byte %d) is missing from the rebuilt index", wn.Name, wn.LastOff)
 	}
-	// contents: every untorn entry restores byte-exactly; the torn entry restores correctly or fails
+	// contents: every untorn entry restores byte-exactly; the torn entry restores correctly or fails (recovery.Fetch, and Open + ReadAll through the filesystem layer)
 	for _, r := range rows {
 		if r.Deleted == 1 || (r.Typeflag != '0' && r.Typeflag != 0) {
 			continue
@@ -306,6 +306,26 @@ func (t *tapeUnderCut) judgeCut(rig *Rig, L int64, res *Result, kind string) boo
 				return viol("torn-restore-wrong-data", "restoring %q, whose content record is torn, returned success with %d bytes instead of an error (record carries %d)", r.Name, len(got), len(wantB))
 			}
 			res.count("torn_restores", 1)
+			// the same through a file handle of the filesystem layer (only when the index has a root: Initialize then writes nothing)
+			hasRoot := false
+			for _, rr := range rows {
+				if rr.Deleted != 1 && normRowName(rr.Name) == "/" {
+					hasRoot = true
+				}
+			}
+			if hasRoot {
+				if rig.FS == nil {
+					if err := rig.Init(); err != nil {
+						continue
+					}
+				}
+				got2, rerr := ReadAllFile(rig.FS, normRowName(r.Name))
+				rig.LocksSettled()
+				if rerr == nil && !bytes.Equal(got2, wantB) {
+					return viol("torn-read-wrong-data", "reading %q, whose content record is torn, through a file handle returned %d bytes and no error (record carries %d)", r.Name, len(got2), len(wantB))
+				}
+				res.count("torn_reads_through_handles", 1)
+			}
 			continue
 		}
 		if ferr != nil {
